@@ -169,7 +169,12 @@ func (t *table) txForms(h rsv, vc int, f string, rng *rand.Rand) []vrs {
 	case "valid":
 		return []vrs{mk(h.r, h.s, h.recid)}
 	case "highs":
-		return []vrs{mk(h.r, new(big.Int).Sub(curveN, h.s), h.recid^1), mk(h.r, new(big.Int).Sub(curveN, h.s), h.recid)}
+		// the twin of the honest signature (both recovery ids), and the boundary of the rule itself: the smallest
+		// high s (N/2 + 1) and the largest one below 2^255 - values no honest twin ever hits
+		halfN := new(big.Int).Rsh(curveN, 1)
+		return []vrs{mk(h.r, new(big.Int).Sub(curveN, h.s), h.recid^1), mk(h.r, new(big.Int).Sub(curveN, h.s), h.recid),
+			mk(h.r, new(big.Int).Add(halfN, big.NewInt(1)), h.recid), mk(h.r, new(big.Int).Add(halfN, big.NewInt(1)), h.recid^1),
+			mk(h.r, pow2m1(255), h.recid)}
 	case "vflip":
 		return []vrs{mk(h.r, h.s, h.recid^1)}
 	case "r0":
